@@ -1,6 +1,7 @@
 package world
 
 import (
+	"encoding/json"
 	"fmt"
 
 	"github.com/uhn/ggql/pkg/ggql"
@@ -58,6 +59,8 @@ func fieldValue(n *Node, field string, args map[string]interface{}) interface{} 
 		return fmt.Sprintf("%v/%v/%v", args["a"], args["b"], args["c"])
 	case "rev":
 		return fmt.Sprintf("x=%v,y=%v", args["x"], args["y"])
+	case "pick":
+		return PickResult(args["i"], args["e"], args["in"], args["ids"], args["ss"])
 	}
 	if field == "echo" || field == "set" {
 		if field == "set" {
@@ -304,6 +307,29 @@ func (c *Common) Tri(a, b, cc string) (interface{}, error) {
 		return nil, err
 	}
 	return fmt.Sprintf("%v/%v/%v", a, b, cc), nil
+}
+
+// Pick echoes its arguments (typed loosely so that the coerced request values arrive unchanged).
+func (c *Common) Pick(i interface{}, e interface{}, in interface{}, ids interface{}, ss interface{}) (interface{}, error) {
+	c.Xr.record(c.Xn, "pick", map[string]interface{}{"i": i, "e": e, "in": in, "ids": ids, "ss": ss})
+	if err := c.Xr.fault(CallKey{c.Xn.ID, "pick"}); err != nil {
+		return nil, err
+	}
+	return PickResult(i, e, in, ids, ss), nil
+}
+
+// PickResult is the value of pick(...) on every back end and in the reference.
+func PickResult(i, e, in, ids, ss interface{}) string {
+	return fmt.Sprintf("%s|%s|%s|%s|%s", CanonText(i), CanonText(e), CanonText(in), CanonText(ids), CanonText(ss))
+}
+
+// CanonText prints an argument value independent of its Go carrier (int kinds, Symbol vs string).
+func CanonText(v interface{}) string {
+	b, err := json.Marshal(Canon(v))
+	if err != nil {
+		return fmt.Sprintf("%v", v)
+	}
+	return string(b)
 }
 
 // Rev takes its parameters in the opposite order of the GraphQL declaration rev(x, y): correct only
